@@ -821,7 +821,7 @@ func UpdateResourceRefs(xr resource.ComposedResourcesReferencer, desired Compose
 	// their relative order follows the iteration order of the desired map.
 	sort.Slice(refs, func(i, j int) bool {
 		ri, rj := refs[i], refs[j]
-		return ri.APIVersion+"/"+ri.Kind+"/"+ri.Name < rj.APIVersion+"/"+rj.Kind+"/"+rj.Name
+		return ri.APIVersion+"/"+ri.Kind+"/"+ri.Namespace+"/"+ri.Name < rj.APIVersion+"/"+rj.Kind+"/"+rj.Namespace+"/"+rj.Name
 	})
 
 	xr.SetResourceReferences(refs)
